@@ -13,7 +13,8 @@ EXPLANATION = (
     "ContextMessage::CheckpointBarrier on the context senders, or a drain / capture of the inbound channel, or a global "
     "pause; the only constructor of barriers sent on context channels must otherwise be the coordinator."
 )
-DECIDED = ["ack assembly guards of the coordinator", "whether in-flight cross-context events are accounted for by the barrier protocol"]
+DECIDED = ["ack assembly guards of the coordinator", "whether in-flight cross-context events are accounted for by the barrier protocol",
+           "a checkpoint id that went out on a barrier is never reused by a later round"]
 NOT_DECIDED = ["the interleavings themselves", "replay of unconsumed inputs"]
 
 C = "varpulis_runtime::context::"
